@@ -8,6 +8,7 @@ package absnfs
 
 import (
 	"fmt"
+	"runtime"
 	"sync/atomic"
 	"time"
 )
@@ -94,6 +95,91 @@ func tuningFromExportOptions(opts *ExportOptions) *TuningOptions {
 		t.Timeouts = &tCopy
 	}
 	return t
+}
+
+// applyDefaults replaces zero or negative numeric and duration fields, a nil
+// Timeouts and zero or negative Timeouts fields with their default values.
+// Applied at construction and on every runtime update.
+func (t *TuningOptions) applyDefaults() {
+	if t.TransferSize <= 0 {
+		t.TransferSize = 65536 // Default: 64KB
+	}
+
+	// Set attribute cache defaults
+	if t.AttrCacheTimeout <= 0 {
+		t.AttrCacheTimeout = 5 * time.Second
+	}
+	if t.AttrCacheSize <= 0 {
+		t.AttrCacheSize = 10000
+	}
+
+	// Set negative cache defaults
+	if t.NegativeCacheTimeout <= 0 {
+		t.NegativeCacheTimeout = 5 * time.Second
+	}
+
+	// Set directory cache defaults
+	if t.DirCacheTimeout <= 0 {
+		t.DirCacheTimeout = 10 * time.Second
+	}
+	if t.DirCacheMaxEntries <= 0 {
+		t.DirCacheMaxEntries = 1000
+	}
+	if t.DirCacheMaxDirSize <= 0 {
+		t.DirCacheMaxDirSize = 10000
+	}
+
+	// Set worker pool defaults
+	if t.MaxWorkers <= 0 {
+		t.MaxWorkers = runtime.NumCPU() * 4 // Default: number of logical CPUs * 4
+	}
+
+	// Connection management defaults
+	if t.MaxConnections <= 0 {
+		t.MaxConnections = 100 // Default: 100 concurrent connections
+	}
+	if t.IdleTimeout <= 0 {
+		t.IdleTimeout = 5 * time.Minute // Default: 5 minutes
+	}
+
+	if t.SendBufferSize <= 0 {
+		t.SendBufferSize = 262144 // Default: 256KB
+	}
+	if t.ReceiveBufferSize <= 0 {
+		t.ReceiveBufferSize = 262144 // Default: 256KB
+	}
+
+	// Set timeout defaults, filling in any zero values
+	if t.Timeouts == nil {
+		t.Timeouts = &TimeoutConfig{}
+	}
+	if t.Timeouts.ReadTimeout <= 0 {
+		t.Timeouts.ReadTimeout = 30 * time.Second
+	}
+	if t.Timeouts.WriteTimeout <= 0 {
+		t.Timeouts.WriteTimeout = 60 * time.Second
+	}
+	if t.Timeouts.LookupTimeout <= 0 {
+		t.Timeouts.LookupTimeout = 10 * time.Second
+	}
+	if t.Timeouts.ReaddirTimeout <= 0 {
+		t.Timeouts.ReaddirTimeout = 30 * time.Second
+	}
+	if t.Timeouts.CreateTimeout <= 0 {
+		t.Timeouts.CreateTimeout = 15 * time.Second
+	}
+	if t.Timeouts.RemoveTimeout <= 0 {
+		t.Timeouts.RemoveTimeout = 15 * time.Second
+	}
+	if t.Timeouts.RenameTimeout <= 0 {
+		t.Timeouts.RenameTimeout = 20 * time.Second
+	}
+	if t.Timeouts.HandleTimeout <= 0 {
+		t.Timeouts.HandleTimeout = 5 * time.Second
+	}
+	if t.Timeouts.DefaultTimeout <= 0 {
+		t.Timeouts.DefaultTimeout = 30 * time.Second
+	}
 }
 
 // policyFromExportOptions extracts PolicyOptions from ExportOptions.
@@ -186,6 +272,7 @@ func (n *AbsfsNFS) UpdateTuningOptions(fn func(*TuningOptions)) {
 		updated.Timeouts = &tCopy
 	}
 	fn(&updated)
+	updated.applyDefaults()
 	n.tuning.Store(&updated)
 	n.applyTuningSideEffects(old, &updated)
 }
@@ -200,6 +287,12 @@ func (n *AbsfsNFS) UpdatePolicyOptions(newPolicy PolicyOptions) error {
 	old := n.policy.Load()
 	if old.Squash != newPolicy.Squash {
 		return fmt.Errorf("cannot change Squash mode at runtime")
+	}
+
+	// Provide default rate limit config if none specified, as New does
+	if newPolicy.RateLimitConfig == nil {
+		config := DefaultRateLimiterConfig()
+		newPolicy.RateLimitConfig = &config
 	}
 
 	// Drain in-flight requests: Lock() blocks until all RLock holders
@@ -302,12 +395,13 @@ func (n *AbsfsNFS) applyTuningSideEffects(old, updated *TuningOptions) {
 	}
 }
 
-// initAtomicOptions populates the atomic pointers from an ExportOptions.
+// initAtomicOptions populates the atomic pointers from the defaulted tuning
+// options and the policy part of an ExportOptions.
 // Called once during New().
-func (n *AbsfsNFS) initAtomicOptions(opts *ExportOptions) {
+func (n *AbsfsNFS) initAtomicOptions(tuning *TuningOptions, opts *ExportOptions) {
 	n.tuning = atomic.Pointer[TuningOptions]{}
 	n.policy = atomic.Pointer[PolicyOptions]{}
-	n.tuning.Store(tuningFromExportOptions(opts))
+	n.tuning.Store(tuning)
 	n.policy.Store(policyFromExportOptions(opts))
 }
 
